@@ -66,6 +66,21 @@ func init() {
 		"(*strings.Builder).String":           extBuilderString,
 		"(*strings.Builder).copyCheck":        noop,
 
+		"maps.clone": func(fr *frame, args []value) value {
+			it := args[0].(iface)
+			m, _ := it.v.(*omap)
+			if m == nil {
+				return it
+			}
+			c := makeMap(m.keyType)
+			for _, idx := range m.live() {
+				e := m.entries[idx]
+				c.insert(fr, copyVal(e.key), copyVal(e.val))
+			}
+			return iface{t: it.t, v: c}
+		},
+		"sort.Slice":       extSortSlice,
+		"sort.SliceStable": extSortSlice,
 		// --- runtime / misc
 		"runtime.SetFinalizer": noop,
 		"runtime.KeepAlive":    noop,
@@ -420,4 +435,24 @@ func reflectKind(t types.Type) int {
 		return 25
 	}
 	return 0
+}
+
+// extSortSlice: stable insertion sort driven by the real less closure
+// (symbolic comparisons fork through decide).
+func extSortSlice(fr *frame, args []value) value {
+	it := args[0].(iface)
+	xs, ok := it.v.([]value)
+	if !ok {
+		panic(internalError{"sort.Slice of non-slice"})
+	}
+	less := args[1]
+	lt := func(i, j int) bool {
+		return fr.decideV(call(fr.i, fr, token.NoPos, less, []value{i, j}))
+	}
+	for i := 1; i < len(xs); i++ {
+		for j := i; j > 0 && lt(j, j-1); j-- {
+			xs[j], xs[j-1] = xs[j-1], xs[j]
+		}
+	}
+	return nil
 }
